@@ -515,6 +515,24 @@ impl Deb822 {
     fn insert_empty_paragraph(&mut self, index: Option<usize>) -> Paragraph {
         let paragraph = Paragraph::new();
         let mut to_insert = vec![];
+        if index.is_none() {
+            // Appending: terminate an unterminated last line first, so that the
+            // separating empty line does not merely end that line.
+            if let Some(last) = self.0.last_token() {
+                if last.kind() != NEWLINE {
+                    let mut builder = GreenNodeBuilder::new();
+                    builder.start_node(EMPTY_LINE.into());
+                    builder.token(NEWLINE.into(), "\n");
+                    builder.finish_node();
+                    let newline = SyntaxNode::new_root_mut(builder.finish())
+                        .first_token()
+                        .unwrap();
+                    let parent = last.parent().unwrap();
+                    let count = parent.children_with_tokens().count();
+                    parent.splice_children(count..count, vec![newline.into()]);
+                }
+            }
+        }
         if self.0.children().count() > 0 {
             let mut builder = GreenNodeBuilder::new();
             builder.start_node(EMPTY_LINE.into());
